@@ -84,6 +84,7 @@ def key_matches_some_rule(chk, key):
     return False
 
 
+BATCH = 250
 DIGEST_A = L.DIGEST
 DIGEST_B = bytes([1, 32]) + bytes(range(32, 64))
 PARAMS_DIGEST = bytes([2, 32]) + bytes(range(32))     # ParametersSha256DigestComponent: not the implicit digest, never dropped
@@ -176,8 +177,11 @@ def check_schema(ctx, ast, fe, lits, tag, maxlen, npairs):
                 impl.append(L.impl_check(chk, p, k))
                 g.append((label, len(pairs) - 1))
         grids.append(g)
-    mod = M([14, dump, sfe, L.MODEL_FUEL, pairs])
-    spec = M([16, sa, sfe, pairs])
+    # batches: the extracted model's node look-up is linear in the node id, a 3000-node tree answers ~10 pairs / s
+    mod, spec = [], []
+    for at in range(0, len(pairs), BATCH):
+        mod += M([14, dump, sfe, L.MODEL_FUEL, pairs[at:at + BATCH]])
+        spec += M([16, sa, sfe, pairs[at:at + BATCH]])
     is_closed = closed(ast)
     for i, (p, k) in enumerate(pairs):
         ri, mi = impl[i], mod[i]
